@@ -322,6 +322,36 @@ func (e *linEnv) lin(v ssa.Value) *linExpr {
 			}
 			return e.lenOfAny(t.Call.Args[0])
 		}
+	case *ssa.Extract:
+		// the count a reader returns: 0 <= n <= len(p) (the contract of io.Reader, which the readers of this
+		// package pass on from net.Conn / io.ReadFull)
+		if call, ok := t.Tuple.(*ssa.Call); ok && t.Index == 0 && readerContract[calleeNameSSA(&call.Call)] {
+			var buf ssa.Value
+			for _, a := range call.Call.Args {
+				if st, isSl := a.Type().Underlying().(*types.Slice); isSl {
+					if bt, isB := st.Elem().Underlying().(*types.Basic); isB && bt.Kind() == types.Uint8 {
+						buf = a
+					}
+				}
+			}
+			if buf != nil {
+				q := e.atom(v)
+				var name string
+				for n := range q.t {
+					name = n
+				}
+				e.nonneg[name] = true
+				if e.defSeen == nil {
+					e.defSeen = map[string]bool{}
+				}
+				if !e.defSeen[name] {
+					e.defSeen[name] = true
+					hi := newLin().add(q, 1).add(e.lenOf(buf), -1) // n - len(p) <= 0
+					e.defFacts = append(e.defFacts, linFact{lf: hi, why: "n <= len(p) (io.Reader)"})
+				}
+				return q
+			}
+		}
 	case *ssa.UnOp:
 		// a load in a memory version started by a store to the same cell reads the stored value
 		if _, named := e.names[v]; !named {
@@ -337,6 +367,12 @@ func (e *linEnv) lin(v ssa.Value) *linExpr {
 		}
 	}
 	return e.atom(v)
+}
+
+// readerContract: functions whose first result n satisfies 0 <= n <= len(p) for their byte-slice argument p.
+var readerContract = map[string]bool{
+	"(Conn).Read": true, "(net.Conn).Read": true, "(io.Reader).Read": true, "io.ReadFull": true, "io.ReadAtLeast": true,
+	"(bufio.Reader).Read": true, "(net.PacketConn).ReadFrom": true, "ReadFromSessionUDP": true, "(net.UDPConn).Read": true,
 }
 
 // ---- facts ----
